@@ -311,6 +311,44 @@ func runC02(rec *vkit.Recorder, c *c02Case) []vkit.Violation {
 		got = append(got, d)
 	}
 	sort.Strings(got)
+	// the explorer probes a target before any shard scrapes it: the URL it builds from the target as discovery hands
+	// it over (labels incl. the param conventions) is the URL a single Prometheus would request
+	{
+		var expURLs, refURLs []string
+		for _, ts := range r.d.ActiveTargets() {
+			for _, t := range ts {
+				expURLs = append(expURLs, t.ShardTarget.URL(job).String())
+			}
+		}
+		seen := map[string]bool{}
+		for _, t := range ref {
+			if u := t.URL().String(); !seen[u] {
+				seen[u] = true
+				refURLs = append(refURLs, u)
+			}
+		}
+		expSeen := map[string]bool{}
+		var expUniq []string
+		for _, u := range expURLs {
+			if !expSeen[u] {
+				expSeen[u] = true
+				expUniq = append(expUniq, u)
+			}
+		}
+		sort.Strings(expUniq)
+		sort.Strings(refURLs)
+		if strings.Join(expUniq, "\n") != strings.Join(refURLs, "\n") && refFail == 0 {
+			emptiedPath := false
+			for _, t := range ref {
+				if t.URL().Path == "" {
+					emptiedPath = true
+				}
+			}
+			if !emptiedPath {
+				add("C02/explorer-url-differs", "the explorer would probe\n  %s\na single prometheus requests\n  %s", strings.Join(expUniq, "\n  "), strings.Join(refURLs, "\n  "))
+			}
+		}
+	}
 	// a relabel program that removes a reserved label (empty job / metrics path / scheme)
 	// is a recorded corner: the shipped label set cannot represent "explicitly empty"
 	emptied := ""
